@@ -708,6 +708,7 @@ def _c14():
                        ("pull", (1, 2), "queue_node -> rejecting serial node, puts from two threads: push/pull edge switching"), ("pull2", (1, 2), "queue_node -> two rejecting serial nodes"),
                        ("bufsplit", (1, 2), "buffer_node -> two rejecting nodes: each message to exactly one"), ("async", (2, 3), "async_node completed by a foreign thread: wait_for_all waits for release_wait")]:
         L.append(leg("rt-" + k, "c14_rt", b, {"kind": k}, what="real scheduler: " + what, weight=2.0))
+    L.append(leg("nodes-ow", "c15_nodes", (2, 3), {"only": "ow"}, flags=(), what="overwrite_node / write_once_node behind a broadcast_node: every sequence of 5 operations over put / add a successor / try_get / clear; an edge survives a refused message, every accepted value reaches every present and future successor"))
     L.append(leg("buffers-seq6", "c15_nodes", (1, 2), {"only": "seq", "depth": 6}, flags=(), what="message conservation at the buffering nodes: all legal operation sequences of length 6 over {put, try_get, try_reserve, try_release, try_consume, attach an accepting successor} on buffer/queue/priority_queue/sequencer nodes from 0, 3, 4, 7, 8 buffered items (nothing lost or duplicated, a kept message is offered again, wait_for_all leaves nothing in transit)", weight=2.0))
     L.append(leg("buffers-seq7", "c15_nodes", (0, 1), {"only": "seq", "depth": 7, "prefills": "0.4"}, flags=(), what="same, length 7 from 0 and 4 buffered items (ring growth while an item is reserved)", tiers=("quick",)))
     L.append(leg("buffers-seq9", "c15_nodes", (1, 1), {"only": "seq", "depth": 9, "prefills": "0.4"}, flags=(), what="same, length 9", tiers=("thorough",), weight=3.0))
